@@ -90,7 +90,7 @@ def gen(args):
     out = []
     t = 0
     tries = 0
-    while len(out) < n and tries < n * 400:
+    while len(out) < n and tries < n * 400 and core.arm():
         tries += 1
         d = int(rng.choice([1, 1, 2, 2, 3]))
         N = int(rng.integers(d + 2, {1: 13, 2: 10, 3: 8}[d]))
@@ -147,6 +147,7 @@ def gen(args):
             c2 = fit_case(cid + "-affine", "affine-y", P2, Hd, order, [], s, tol, xdt)
             c2.update({"nbase": N, "basesel": base["sel"], "basedq": base["dq"], "A": A, "B": B})
             out.append(c2)
+    core.disarm()
     return out
 
 
